@@ -94,7 +94,7 @@ def _conc_bv(ctx, v, lo, hi):
 
 
 class StructShadow:
-    """the name ``struct`` as seen from image_utils: unpack/unpack_from of ONE integer code with an
+    """the name ``struct`` as seen from image_utils: unpack/unpack_from of integer codes with an
     explicit byte order, on symbolic buffers; everything else is the real module (K1s checks the
     agreement on concrete buffers, including the error behaviour on short buffers)"""
     error = _real_struct.error
@@ -106,29 +106,40 @@ class StructShadow:
 
     @classmethod
     def _parse(cls, fmt):
-        if len(fmt) != 2 or fmt[0] not in cls._ORDER or fmt[1] not in cls._SIZE:
+        """-> (byte order, [(size, signed), ...]) for an explicit order followed by integer codes"""
+        if len(fmt) < 2 or fmt[0] not in cls._ORDER or any(c not in cls._SIZE for c in fmt[1:]):
             raise S.Unsupported("struct format %r" % (fmt,))
-        return cls._ORDER[fmt[0]], cls._SIZE[fmt[1]], fmt[1] in "bhilq"
+        return cls._ORDER[fmt[0]], [(cls._SIZE[c], c in "bhilq") for c in fmt[1:]]
+
+    @classmethod
+    def _fields(cls, buf, offset, order, codes):
+        out = []
+        for size, signed in codes:
+            out.append(S._from_bytes(list(buf[offset:offset + size]), order, signed=signed))
+            offset += size
+        return tuple(out)
 
     @classmethod
     def unpack(cls, fmt, buf):
         if isinstance(buf, (bytes, bytearray)):
             return _real_struct.unpack(fmt, buf)
-        order, size, signed = cls._parse(fmt)
+        order, codes = cls._parse(fmt)
+        size = sum(sz for sz, _ in codes)
         if len(buf) != size:
             raise _real_struct.error("unpack requires a buffer of %d bytes" % size)
-        return (S._from_bytes(list(buf), order, signed=signed),)
+        return cls._fields(buf, 0, order, codes)
 
     @classmethod
     def unpack_from(cls, fmt, buf, offset=0):
         if isinstance(buf, (bytes, bytearray)):
             return _real_struct.unpack_from(fmt, buf, offset)
-        order, size, signed = cls._parse(fmt)
+        order, codes = cls._parse(fmt)
+        size = sum(sz for sz, _ in codes)
         if offset < 0:
             offset += len(buf)
         if offset < 0 or len(buf) - offset < size:
             raise _real_struct.error("unpack_from requires a buffer of at least %d bytes" % (offset + size))
-        return (S._from_bytes(list(buf[offset:offset + size]), order, signed=signed),)
+        return cls._fields(buf, offset, order, codes)
 
 
 # ---------------------------------------------------------------------------------------
@@ -410,7 +421,7 @@ def _k1r_parts(tier):
 # ---------------------------------------------------------------------------------------
 
 def k1_struct_shadow(ctx):
-    fmts = [">I", ">H", "<i", "<H", "<I", "<h", ">i"]
+    fmts = [">I", ">H", "<i", "<H", "<I", "<h", ">i", "<HH", ">Hi"]
     fmt = fmts[ctx.choice("fmt", len(fmts))]
     size = _real_struct.calcsize(fmt)
     n = ctx.choice("buflen", 7)
@@ -434,27 +445,27 @@ def k1_struct_shadow(ctx):
         return
     # symbolic: the stand-in's value must equal the arithmetic definition of the format
     order = "big" if fmt[0] == ">" else "little"
-    signed = fmt[1].islower()
     r = run(lambda: StructShadow.unpack_from(fmt, sym, off))
     if n - off < size:
         ctx.require(r[0] == "struct.error", "struct-shadow-differs", fmt=fmt)
         return
-    ctx.require(r[0] == "ok", "struct-shadow-differs", fmt=fmt)
-    bs = list(sym[off:off + size])
-    if order == "little":
-        bs = bs[::-1]
-    val = 0
-    for x in bs:
-        val = val * 256 + x.to_int()
-    if signed:
-        top = 1 << (8 * size - 1)
-        val_s = S.SymInt(z3.If(val.z >= top, val.z - 2 * top, val.z))
-    else:
-        val_s = val
-    if ctx.perturb == "unsigned_everywhere":
-        val_s = val
-    got = r[1][0]
-    ctx.require(got == val_s, "struct-shadow-differs", fmt=fmt)
+    ctx.require(r[0] == "ok" and len(r[1]) == len(fmt) - 1, "struct-shadow-differs", fmt=fmt)
+    pos = off
+    for k, code in enumerate(fmt[1:]):
+        fsize = _real_struct.calcsize(fmt[0] + code)
+        bs = list(sym[pos:pos + fsize])
+        pos += fsize
+        if order == "little":
+            bs = bs[::-1]
+        val = 0
+        for x in bs:
+            val = val * 256 + x.to_int()
+        if code.islower() and ctx.perturb != "unsigned_everywhere":
+            top = 1 << (8 * fsize - 1)
+            val_s = S.SymInt(z3.If(val.z >= top, val.z - 2 * top, val.z))
+        else:
+            val_s = val
+        ctx.require(r[1][k] == val_s, "struct-shadow-differs", fmt=fmt, field=k)
 
 
 def _k1_targets():
@@ -605,9 +616,11 @@ def _k2_resolve(ctx, fn_name, base_dir, target):
     if fn_name == "pptx":
         return pick(m["pptx"]._normalize_relative_path)(base_dir, target)
     if fn_name == "xlsx-drawing":
-        return pick(m["xlsx"]._resolve_drawing_path)(target)
+        # (target, path of the worksheet part that holds the relationship)
+        return pick(m["xlsx"]._resolve_drawing_path)(target, base_dir + "/sheet1.xml")
     if fn_name == "xlsx-image":
-        return pick(m["xlsx"]._resolve_image_path)(target)
+        # (target, path of the drawing part that holds the relationship)
+        return pick(m["xlsx"]._resolve_image_path)(target, base_dir + "/drawing1.xml")
     if fn_name == "epub":
         from sharepoint2text.parsing.extractors import epub_extractor as ep
 
@@ -626,8 +639,8 @@ def _k2_resolve(ctx, fn_name, base_dir, target):
     raise KeyError(fn_name)
 
 
-_K2_BASES = {"pptx": ["ppt/slides", "p"], "docx": ["word"], "xlsx-drawing": ["xl/worksheets"],
-             "xlsx-image": ["xl/drawings"], "epub": ["OEBPS", ""]}
+_K2_BASES = {"pptx": ["ppt/slides", "p"], "docx": ["word"], "xlsx-drawing": ["xl/worksheets", "xl"],
+             "xlsx-image": ["xl/drawings", "d"], "epub": ["OEBPS", ""]}
 
 
 def k2_targets(ctx):
@@ -660,11 +673,13 @@ def k2_variant_check(ctx):
     t = vocab[ctx.choice("target", len(vocab))]
     f = fns[ctx.choice("fn", len(fns))]
     v = _charstr_variant(f)
-    args = ("ppt/slides", t) if f is fns[0] else (t,)
+    args = ("ppt/slides", t) if f is fns[0] else (t, "xl/worksheets/sheet1.xml" if f is fns[1] else "xl/drawings/drawing1.xml")
     a, b = f(*args), v(*args)
     if ctx.perturb == "variant_differs":
         b = b + "x"
-    ctx.require(a == b and type(a) is type(b), "charstr-variant-differs", fn=f.__name__, target=t, a=a, b=str(b))
+    # (the lifted posixpath model hands back its own string type also for plain input: compare values)
+    ctx.require(a == str(b) and isinstance(b, (str, S.CharStr)), "charstr-variant-differs", fn=f.__name__, target=t,
+                a=a, b=str(b))
     # and on a CharStr holding the same characters
     c = v(*[S.CharStr(x) if x is t else x for x in args]) if not ctx.concrete else a
     ctx.require(str(c) == a, "charstr-variant-differs", fn=f.__name__, target=t, a=a, b=str(c))
